@@ -71,6 +71,37 @@ func (p *Prog) optionFieldMap(fn *ssa.Function) map[string][]string {
 }
 
 // timerSources collects the leaf definitions of a channel value through phis.
+// helperResultSources: the sources of result idx of a call to a helper of the same package.
+func helperResultSources(x *ssa.Call, idx int, seen map[ssa.Value]bool, out *[]ssa.Value) bool {
+	sc := x.Call.StaticCallee()
+	if sc == nil || sc.Blocks == nil || sc.Pkg != x.Parent().Pkg {
+		return false
+	}
+	ns := map[*ssa.Parameter]string{}
+	for k, val := range descSubst {
+		ns[k] = val
+	}
+	for i, par := range sc.Params {
+		if i < len(x.Call.Args) {
+			ns[par] = Desc(x.Call.Args[i])
+		}
+	}
+	n := 0
+	for _, b := range sc.Blocks {
+		ret, ok := b.Instrs[len(b.Instrs)-1].(*ssa.Return)
+		if !ok || len(ret.Results) <= idx || (sc.Recover != nil && b == sc.Recover) {
+			continue
+		}
+		n++
+		before := len(*out)
+		timerSources(resolveSpill(ret.Results[idx], ret), seen, out)
+		for _, s := range (*out)[before:] {
+			timerSubst[s] = ns
+		}
+	}
+	return n > 0
+}
+
 func timerSources(v ssa.Value, seen map[ssa.Value]bool, out *[]ssa.Value) {
 	if seen[v] {
 		return
@@ -85,6 +116,15 @@ func timerSources(v ssa.Value, seen map[ssa.Value]bool, out *[]ssa.Value) {
 		timerSources(x.X, seen, out)
 	case *ssa.MakeInterface:
 		timerSources(x.X, seen, out)
+	case *ssa.Extract:
+		// one result of a private helper that returns several (`be, tq := s.sendLimit()`)
+		if call, ok := x.Tuple.(*ssa.Call); ok {
+			if helperResultSources(call, x.Index, seen, out) {
+				return
+			}
+		}
+		*out = append(*out, v)
+		return
 	case *ssa.Call:
 		// a private helper that picks the timer channel (`expireQ(bestEffort, d)`): its
 		// sources are the values it can return, read with its parameters as the arguments
